@@ -620,7 +620,7 @@ func init() {
 		ID: "C11", Level: "exploration",
 		Rule:        "shutdown scenarios: state at shutdown begin drawn from a conformance prefix (running multi-task jobs with a subset of tasks done, waiting, delayed-pending, finished jobs) x graceful / forced (deadline 0-1.5 ms) x clients racing the shutdown (schedule directly and via POST /pipelines/schedule, cancel, SaveToStore, snapshots) x a store whose Save takes 0.2-2 ms (saves in flight when Shutdown returns) x a finisher that lets tasks end one at a time (later tasks of multi-task jobs must still be launched during a graceful shutdown). Oracles keyed on the Shutdown return event R: every job terminal and none executing at R; no run-enter without run-exit at R and none after R; reported state deep-equal at R and after all in-flight saves have landed; the LAST snapshot that reached the store equals the state at R; no request issued after R accepted (503 over HTTP); requests accepted during the shutdown terminal at R; graceful: jobs running at begin are never told to stop and run all remaining tasks to success, waiting jobs end canceled without running; forced: everything terminal. First cases: the persist loop - an acknowledged schedule / cancel / completion must be carried by a save within 10 s (period 3 s) counted in heartbeats of the harness process, also with a 200 ms Save so that changes land during a save. A situation is (forced, slowSave, clients, #running, #waiting, #finished at begin) and what was observed (request accepted during shutdown, save landing after return, ...)",
 		Assumptions: []string{seqAssumption, "the persist-interval clause is inherently timed: limit 10 s for a 3 s period, measured in heartbeats so that a stalled machine stalls the clock"},
-		Cases:       func(t string) int { return tierN(t, 6, 40) + tierN(t, 2, 24) + tierN(t, 400, 9000) },
+		Cases:       func(t string) int { return tierN(t, 6, 40) + tierN(t, 4, 24) + tierN(t, 400, 9000) },
 		RunCase: func(c *CaseCtx) *CaseResult {
 			nPersist := tierN(c.Tier, 6, 40)
 			if c.Idx < nPersist {
@@ -630,13 +630,18 @@ func init() {
 				}
 				return simpleCase(c, drv.RunPersistCase(c.Seed, c.Idx%2 == 1), 3)
 			}
-			nBin := tierN(c.Tier, 2, 24)
+			nBin := tierN(c.Tier, 4, 24)
 			if c.Idx < nPersist+nBin {
 				bin := os.Getenv("PRUNNER_BIN")
 				if bin == "" {
 					return &CaseResult{Idx: c.Idx, Inconclusive: "PRUNNER_BIN not set (bin/check builds cmd/prunner from /repo)"}
 				}
-				return simpleCase(c, drv.RunBinaryCase(c.Seed, bin, c.TmpDir, (c.Idx-nPersist)%2 == 1), 1)
+				k := c.Idx - nPersist
+				seed := c.Seed | 1 // odd: one signal
+				if (k/2)%2 == 1 {
+					seed = c.Seed &^ 1 // even: the interrupt is repeated while the graceful shutdown waits
+				}
+				return simpleCase(c, drv.RunBinaryCase(seed, bin, c.TmpDir, k%2 == 1), 1)
 			}
 			k := c.Idx - nPersist - nBin
 			if k%20 == 19 {
